@@ -10,10 +10,10 @@ Fail(e, c) == <<[tid |-> e.tid, i |-> e.i, clause |-> c]>>
 Chk(cond, e, c) == IF cond THEN <<>> ELSE Fail(e, c)
 
 (* the harness logs, per entry, the number attribute (seq) and the number read from the text (lseq) *)
-Strip(t) == [i \in 1..Len(t) |-> [blk |-> t[i].blk, seq |-> t[i].seq, sig |-> t[i].sig,
-              items |-> [j \in 1..Len(t[i].items) |-> [blk |-> FALSE, seq |-> t[i].items[j].seq, sig |-> t[i].items[j].sig, items |-> <<>>]]]]
-TextAgrees(t) == /\ \A i \in 1..Len(t) : ~t[i].blk => t[i].lseq = t[i].seq
-                 /\ \A i \in 1..Len(t) : \A j \in 1..Len(t[i].items) : t[i].items[j].lseq = t[i].items[j].seq
+RECURSIVE Strip(_)
+Strip(t) == [i \in 1..Len(t) |-> [blk |-> t[i].blk, seq |-> t[i].seq, sig |-> t[i].sig, items |-> Strip(t[i].items)]]
+RECURSIVE TextAgrees(_)
+TextAgrees(t) == \A i \in 1..Len(t) : IF t[i].blk THEN TextAgrees(t[i].items) ELSE t[i].lseq = t[i].seq
 
 Clauses(e) ==
   CASE e.act = "Given" -> <<>>        \* the state of an object somebody else built (recorded executions): nothing claimed
